@@ -227,6 +227,7 @@ fn panic_class(msg: &str) -> String {
 const HANG_SECS: u64 = 6;
 const MAX_HANGS: u64 = 12;
 const CONFIRM_SECS: u64 = 10;
+const UNDECIDED_SECS: u64 = 600;
 
 #[derive(Default)]
 struct Beat {
@@ -397,9 +398,54 @@ pub fn run_jobs(jobs: Vec<Job>, threads: usize) -> Report {
           let _ = run_one(&sh3.jobs[i], &mut ch, false);
           let _ = tx.send(());
         });
-        if rx.recv_timeout(std::time::Duration::from_secs(CONFIRM_SECS)).is_ok() {
+        // ... and "again" is judged against a canary, not against the wall clock
+        // alone: the same job's default execution, run in a fresh thread while the
+        // suspect is being re-executed. Only when the canary returned promptly three
+        // times in a row (the machine demonstrably executes this kind of work) while
+        // the suspect stayed blocked, and CONFIRM_SECS have passed, is it a hang. A
+        // machine that is stalled (memory pressure, CPU starvation) stalls the
+        // canary as well, and then nothing is concluded until it recovers.
+        let t_confirm = Instant::now();
+        let mut prompt_canaries = 0;
+        let mut returned = false;
+        let mut undecided = false;
+        loop {
+          if rx.recv_timeout(std::time::Duration::from_secs(if prompt_canaries == 0 { CONFIRM_SECS } else { 3 })).is_ok() {
+            returned = true;
+            break;
+          }
+          if prompt_canaries >= 3 {
+            break;
+          }
+          if t_confirm.elapsed().as_secs() > UNDECIDED_SECS {
+            undecided = true;
+            break;
+          }
+          let (ctx, crx) = std::sync::mpsc::channel();
+          let sh4 = sh.clone();
+          let t_c = Instant::now();
+          let _ = std::thread::Builder::new().stack_size(16 << 20).spawn(move || {
+            let mut ch = Chooser::new(vec![], u32::MAX);
+            let _ = run_one(&sh4.jobs[i], &mut ch, false);
+            let _ = ctx.send(());
+          });
+          match crx.recv_timeout(std::time::Duration::from_secs(60)) {
+            Ok(()) if t_c.elapsed().as_millis() < 1000 => prompt_canaries += 1,
+            _ => prompt_canaries = 0,
+          }
+        }
+        if returned {
           sh.total.lock().unwrap().spurious_hang_suspicions += 1;
           b.lock().unwrap().dead = false;
+          continue;
+        }
+        if undecided {
+          // neither the suspect nor a prompt canary: an engine / machine problem, never a verdict
+          let mut t = sh.total.lock().unwrap();
+          t.machinery.push(format!("could not decide within {UNDECIDED_SECS}s whether `{}` choices {:?} blocks (the machine does not execute the canary promptly)", sh.jobs[i].name, prefix));
+          t.stats.capped = true;
+          drop(t);
+          spawn_worker(&sh);
           continue;
         }
         let job = &sh.jobs[i];
@@ -415,7 +461,7 @@ pub fn run_jobs(jobs: Vec<Job>, threads: usize) -> Report {
               i,
               &job.name,
               prefix.clone(),
-              format!("execution did not return within {HANG_SECS}s and again not within {CONFIRM_SECS}s when re-executed (blocked for good); choices {prefix:?} then defaults"),
+              format!("execution did not return within {HANG_SECS}s and again not when re-executed, while the same scenario's default execution returned promptly three times meanwhile (blocked for good); choices {prefix:?} then defaults"),
             );
           } else {
             t.hung.push(format!("{} choices {:?}", job.name, prefix));
